@@ -187,7 +187,7 @@ def case_tree(desc: dict[str, Any], t: Any) -> tuple[dict[str, Any], list[str], 
 
 TREE_NAMES = ['file_input', 'block', 'function_def', 'parameters', 'a', 'ab', 'a_b', '__empty__', 'typed_var', 'elif_clauses', 'name']
 TOKEN_TYPES = ['NAME', 'STRING', 'DEC_NUMBER', '__ANON_0', '__ANON_12', 'COLON', 'PLUS', 'COMMENT', 'name']
-VALUES = ['# c  ', '# c\r', 'x\t', '\n', "'''a\n'''", '', 'x', 'self', "'s'", '"d\\n"', 'あい', 'a b', '->', '\t', 'a\nb', '\\', '\U0001F600', '\x7f', '0', 'None', ' ']
+VALUES = ['# cafe\u0301', 'A\u030a \u212b', '\u304b\u3099', '\u1112\u1161\u11ab', '\ufb01 \u00bd', '# c  ', '# c\r', 'x\t', '\n', "'''a\n'''", '', 'x', 'self', "'s'", '"d\\n"', 'あい', 'a b', '->', '\t', 'a\nb', '\\', '\U0001F600', '\x7f', '0', 'None', ' ']
 
 
 def gen_pos(rng: random.Random, mode: str) -> Any:
@@ -568,7 +568,7 @@ def damaged(rng: random.Random, text: str, n: int) -> list[str]:
 	return out
 
 
-JSON_STRINGS = ['', 'a', 'name', 'é', 'あい', '\U0001F600x', '"', '\\', '/', '\n\r\t\b\f', '\x00\x1f', '\x7f', '\x80\xff', '\u2028\u2029', '\ud7ff\ue000', '\uffff', '\U00010000', '\U0010FFFF', ' sp ', '\\u0041', '"quoted"', '{}[],:']
+JSON_STRINGS = ['e\u0301', '\u212b', '', 'a', 'name', 'é', 'あい', '\U0001F600x', '"', '\\', '/', '\n\r\t\b\f', '\x00\x1f', '\x7f', '\x80\xff', '\u2028\u2029', '\ud7ff\ue000', '\uffff', '\U00010000', '\U0010FFFF', ' sp ', '\\u0041', '"quoted"', '{}[],:']
 
 
 def gen_json_value(rng: random.Random, depth: int) -> Any:
@@ -625,7 +625,8 @@ def text_ops(rng: random.Random, text: str, n_damage: int) -> tuple[list[str], l
 
 
 def stream_text(ctx: Ctx) -> Stream:
-	from rogw.tranp.implements.syntax.lark.entry import Serialization
+	from rogw.tranp.implements.syntax.lark.entry import EntryOfLark
+	from rogw.tranp.implements.syntax.lark.parser import EntryStored
 	rng = ctx.sub_rng('entry-text')
 	hist: dict[str, int] = {}
 	cases = []
@@ -640,8 +641,10 @@ def stream_text(ctx: Ctx) -> Stream:
 		ops = [f'tree\t{lark_sexp(t)}', 'print', 'rttext']
 		real = [f'ok {tree_size(t)}']
 		try:
-			text = json.dumps(Serialization.dumps(t), separators=(',', ':'))
-			real.append('ok ' + hx(text.encode('utf-8')))
+			buf = io.BytesIO()
+			EntryStored(EntryOfLark(t)).save(buf)  # the bytes the cache file really holds
+			real.append('ok ' + hx(buf.getvalue()))
+			text = buf.getvalue().decode('utf-8')
 		except Exception as e:  # noqa: BLE001
 			text = ''
 			real.append(exc_enum(e))
